@@ -223,7 +223,7 @@ def minimise(scn, sig):
 
 
 def case(rng, idx, params):
-    kind = ALL_KINDS[idx % len(ALL_KINDS)]
+    kind = cm.pick_kind(rng, ALL_KINDS, ALL_KINDS[idx % len(ALL_KINDS)])
     fams = params.get("families", FAMILIES)
     family = fams[(idx // len(ALL_KINDS)) % len(fams)]
     kw, need = gen_kwargs(rng, kind)
